@@ -18,6 +18,32 @@ PROP_FILE = LEAN / "BlackIt/Properties/C12.lean"
 _REUSED = {}      # one long-lived sampler object, called again and again with unrelated histories (often of the same shape)
 
 
+PRES = {"scale": 1.0, "layout": "C"}      # how the (integer-labelled) points of the current case are presented to the code under test
+
+
+def presentation(dims, b, passes, existing):
+    """deterministic in the case: whole numbers or multiples of 0.1 (non-dyadic: their sums depend on the order of summation),
+    row-major or column-major history / batch arrays"""
+    h = (len(existing) * 7 + dims * 3 + b + passes) % 6
+    return {"scale": 0.1 if h in (1, 2, 4) else 1.0, "layout": {0: "C", 1: "C", 2: "F-hist", 3: "F-batch", 4: "F-both", 5: "C"}[h]}
+
+
+def present(rows, dims, which):
+    a = np.array(rows, dtype=float).reshape(-1, dims) * PRES["scale"]
+    if PRES["layout"] in ("F-both", "F-" + which):
+        a = np.asfortranarray(a)
+    return a
+
+
+def labels(a):
+    """back to the integer labels (exact: the presentation is injective); None if a value is not one of the presented ones"""
+    a = np.asarray(a, dtype=float)
+    if PRES["scale"] == 1.0:
+        return a
+    lab = np.rint(a / PRES["scale"])
+    return lab if np.array_equal(lab * PRES["scale"], a) else None
+
+
 def make_sampler(script, batch_size, passes, reuse=False):
     from black_it.samplers.base import BaseSampler
 
@@ -37,7 +63,7 @@ def make_sampler(script, batch_size, passes, reuse=False):
             self.requests.append(int(batch_size))
             if self.first is not None:
                 self.snapshots.append(self.first.copy())  # the batch as it is when pass k starts
-            out = np.array(self.script_[k][:batch_size], dtype=float).reshape(-1, len(self.script_[0][0]))
+            out = present(self.script_[k][:batch_size], len(self.script_[0][0]), "batch")
             if self.first is None:
                 self.first = out
             return out
@@ -62,7 +88,7 @@ def req(passes, b, dims, existing, script) -> str:
 
 
 def gen_case(rng, chk):
-    dims = rng.choice([1, 1, 2, 3])
+    dims = rng.choice([1, 1, 2, 3, 2, 3, 8, 9, 12])
     alpha = rng.choice([2, 3, 4, 6, 12])        # small alphabets -> frequent collisions
     b = rng.randint(1, 6)
     passes = rng.randint(0, 6)
@@ -152,13 +178,19 @@ def oracle(b, passes, existing, script, out, smp, warned) -> list[str]:
 
 
 def run_real(b, passes, dims, existing, script, reuse=False):
+    PRES.update(presentation(dims, b, passes, existing))
     smp = make_sampler(script, b, passes, reuse=reuse)
-    ex = np.array(existing, dtype=float).reshape(-1, dims)
+    ex = present(existing, dims, "hist")
     ex0 = ex.copy()
     buf = io.StringIO()
     with contextlib.redirect_stdout(buf):
         out = smp.sample(None, ex, np.zeros(len(ex)))
-    return smp, out, "Warning" in buf.getvalue(), np.array_equal(ex, ex0)
+    hist_ok = np.array_equal(ex, ex0)
+    out = labels(out)
+    if out is None:
+        raise ValueError("returned batch holds values that are neither first draws nor redraws")
+    smp.snapshots = [labels(x) for x in smp.snapshots]
+    return smp, out, "Warning" in buf.getvalue(), hist_ok
 
 
 def run(chk: Check):
@@ -182,7 +214,7 @@ def run(chk: Check):
     # find_and_get_duplicates alone (order of reported positions)
     find_cases = []
     for _ in range(n // 4):
-        dims = rng.choice([1, 2, 3]); a = rng.choice([2, 3, 5])
+        dims = rng.choice([1, 2, 3, 8, 11]); a = rng.choice([2, 3, 5])
         off = rng.choice([0, 0, 100000, -2000000])
         new = [[off + rng.randrange(a) for _ in range(dims)] for _ in range(rng.randint(0, 8))]
         ex = [[off + rng.randrange(a) for _ in range(dims)] for _ in range(rng.randint(0, 8))]
@@ -196,6 +228,8 @@ def run(chk: Check):
     for (dims, b, passes, existing, script), ans in zip(cases, answers):
         reuse = (len(existing) + dims + b) % 2 == 0      # about half of the cases go through one long-lived sampler object
         chk.count("sampler_object:" + ("reused" if reuse else "fresh"))
+        pr = presentation(dims, b, passes, existing)
+        chk.count(f"presented:{'multiples_of_0.1' if pr['scale'] != 1.0 else 'whole_numbers'}:{pr['layout']}:dims{'>=8' if dims >= 8 else '<8'}")
         try:
             smp, out, warned, hist_ok = run_real(b, passes, dims, existing, script, reuse=reuse)
             smp = type("Rec", (), {"requests": list(smp.requests), "snapshots": list(smp.snapshots)})()
@@ -224,7 +258,8 @@ def run(chk: Check):
                          {"case": {"dims": dims, "b": b, "passes": passes, "existing": existing, "script": script},
                           "impl": impl + f" warned {int(warned)}", "model": ans})
     for (dims, new, ex), ans in zip(find_cases, answers[len(cases):]):
-        got = BaseSampler.find_and_get_duplicates(np.array(new, dtype=float).reshape(-1, dims), np.array(ex, dtype=float).reshape(-1, dims))
+        PRES.update(presentation(dims, len(new), 0, ex))
+        got = BaseSampler.find_and_get_duplicates(present(new, dims, "batch"), present(ex, dims, "hist"))
         impl = "[" + ",".join(str(int(i)) for i in got) + "]"
         R = repeats(new, ex)
         chk.case(["find", new, ex], len(R) > 0)
